@@ -19,9 +19,11 @@ import SigpyVerif.Lemmas.C13
   pdhg_accel_run_primal.
   Proved in part:  pdhg_residual_rate_partial (non-accelerated, scalar or array steps: the Fejér distances decrease,
   the squared update sizes are summable, min_{k<N} R_k <= D_0/N) — asymptotic regularity at rate 1/N.
-  NOT proved (validated only by the search oracle on the real code): convergence of the PDHG iterates to the
-  minimiser itself (Opial's compactness step on top of pdhg_residual_rate_partial), and the O(1/N^2) rate of
-  the accelerated variants.
+  Proved in Props/C13Conv.lean and Props/C13Accel.lean (on top of this file): convergence of the ISTA and PDHG iterates in
+  finite dimension (Opial's compactness step, also for tau*sigma*||A||^2 = 1), the ergodic primal-dual gap bound, and the
+  O(1/N^2) rate of the accelerated variant with gamma_primal > 0 and scalar steps.
+  NOT proved (validated only by the search oracle on the real code): the accelerated rate for gamma_dual > 0 and for
+  array-valued steps, convergence of the FISTA iterates.
   Only by correspondence: that the real classes compute what `gmStep`/`pdStep` compute (statement
   order, branch conditions, in-place updates of the caller's arrays, floating point).
 -/
@@ -141,8 +143,11 @@ end gm
 
 /-! ### momentum rule -/
 
+set_option linter.unusedTactic false in
+set_option linter.unreachableTactic false in
+set_option linter.unnecessarySeqFocus false in
 theorem gmT_real (t : ℝ) : Gen.C13.gmT Real.sqrt t = (1 + Real.sqrt (1 + 4 * (t * t))) / 2 := by
-  simp only [Gen.C13.gmT, Nat.cast_one, Nat.cast_ofNat]
+  simp only [Gen.C13.gmT, Nat.cast_one, Nat.cast_ofNat] <;> ring_nf
 
 /-- `t_rule_ok` — the code's rule `t ← (1+√(1+4t²))/2` satisfies `t_{k+1}² - t_{k+1} = t_k²` over ℝ. -/
 theorem t_rule_ok (t : ℝ) : (Gen.C13.gmT Real.sqrt t) ^ 2 - Gen.C13.gmT Real.sqrt t = t ^ 2 := by
@@ -635,6 +640,21 @@ theorem metricPSD_abs_sums {m n : ℕ} (M : Fin m → Fin n → ℝ) (τ : Fin n
 
 section accel
 
+set_option linter.unusedTactic false in
+set_option linter.unreachableTactic false in
+set_option linter.unnecessarySeqFocus false in
+/-- the generated `theta` of the `gamma_primal > 0` branch, up to ring normalisation of the radicand (so that a
+    commuted or re-associated sum in the source does not alarm) -/
+theorem pdThetaP_eq (γ τ : ℝ) : Gen.C13.pdThetaP Real.sqrt γ τ = 1 / Real.sqrt (1 + 2 * γ * τ) := by
+  simp only [Gen.C13.pdThetaP, Nat.cast_one, Nat.cast_ofNat] <;> ring_nf
+
+set_option linter.unusedTactic false in
+set_option linter.unreachableTactic false in
+set_option linter.unnecessarySeqFocus false in
+/-- the same for the `gamma_dual > 0` branch -/
+theorem pdThetaD_eq (γ σ : ℝ) : Gen.C13.pdThetaD Real.sqrt γ σ = 1 / Real.sqrt (1 + 2 * γ * σ) := by
+  simp only [Gen.C13.pdThetaD, Nat.cast_one, Nat.cast_ofNat] <;> ring_nf
+
 /-- `gamma_primal > 0, gamma_dual = 0`: Chambolle–Pock Alg. 2 -/
 theorem pdhg_accel_steps_primal (γ θ0 τ σ sm : ℝ) (hγ : 0 < γ) (hτ : 0 < τ) :
     (pdRescale Real.sqrt γ 0 θ0 τ σ τ sm : Rescale ℝ ℝ ℝ).theta = 1 / Real.sqrt (1 + 2 * γ * τ) ∧
@@ -652,7 +672,7 @@ theorem pdhg_accel_steps_primal (γ θ0 τ σ sm : ℝ) (hγ : 0 < γ) (hτ : 0 
   have hr : (pdRescale Real.sqrt γ 0 θ0 τ σ τ sm : Rescale ℝ ℝ ℝ)
       = ⟨1 / Real.sqrt (1 + 2 * γ * τ), (1 / Real.sqrt (1 + 2 * γ * τ)) * τ, σ / (1 / Real.sqrt (1 + 2 * γ * τ)),
           τ * (1 / Real.sqrt (1 + 2 * γ * τ)), sm⟩ := by
-    simp [pdRescale, hγ, Gen.C13.pdThetaP, Gen.C13.pdTauP, Gen.C13.pdSigmaP, Gen.C13.pdTauMinP]
+    simp [pdRescale, hγ, pdThetaP_eq, Gen.C13.pdTauP, Gen.C13.pdSigmaP, Gen.C13.pdTauMinP]
   rw [hr]
   obtain ⟨h0, h1⟩ := theta_pos_lt_one (2 * γ * τ) (by positivity)
   refine ⟨rfl, h0, h1, rfl, rfl, ?_, ?_, rfl⟩
@@ -678,7 +698,7 @@ theorem pdhg_accel_steps_dual (γ θ0 τ σ tm : ℝ) (hγ : 0 < γ) (hσ : 0 < 
   have hr : (pdRescale Real.sqrt 0 γ θ0 τ σ tm σ : Rescale ℝ ℝ ℝ)
       = ⟨1 / Real.sqrt (1 + 2 * γ * σ), τ / (1 / Real.sqrt (1 + 2 * γ * σ)), (1 / Real.sqrt (1 + 2 * γ * σ)) * σ,
           tm, σ * (1 / Real.sqrt (1 + 2 * γ * σ))⟩ := by
-    simp [pdRescale, hγ, hγ.ne', Gen.C13.pdThetaD, Gen.C13.pdTauD, Gen.C13.pdSigmaD, Gen.C13.pdSigmaMinD]
+    simp [pdRescale, hγ, hγ.ne', pdThetaD_eq, Gen.C13.pdTauD, Gen.C13.pdSigmaD, Gen.C13.pdSigmaMinD]
   rw [hr]
   obtain ⟨h0, h1⟩ := theta_pos_lt_one (2 * γ * σ) (by positivity)
   refine ⟨rfl, h0, h1, rfl, rfl, ?_, ?_, rfl⟩
